@@ -78,20 +78,20 @@ CHECKS = {
     "C08": dict(
         engine="fsmodel + hist (on zsym)", level="fault_enumeration", design_ref="DESIGN.md section 4 / C08",
         technique="symbolic execution (zsym/z3) of the real save path on an in-memory file system whose every effect is a fault/crash point: failing effect, raising tensor/callback, threshold and shard limit are symbolic integers; crash oracle at every effect boundary",
-        text=("The real _io.save -> unload_from_model -> _write_external_tensors -> _write_external_data -> _ExternalDataWriter and the real ExternalTensor run on an in-memory POSIX-subset file system. For 9 scenarios (incl. a read-only destination; faults may be BaseExceptions: KeyboardInterrupt from the callback, SystemExit from a tensor) (no destination, foreign "
+        text=("The real _io.save -> unload_from_model -> _write_external_tensors -> _write_external_data -> _ExternalDataWriter and the real ExternalTensor run on an in-memory POSIX-subset file system. For 10 scenarios (incl. a read-only destination and a second data file with the same relative name under another base directory; faults may be BaseExceptions: KeyboardInterrupt from the callback, SystemExit from a tensor) (no destination, foreign "
               "destination, re-save onto the model's own data file, own + other backing file, symlinked destination, hard-linked destination, sharded, sharded with colliding shard) and their max_workers=2 variants on virtual threads, "
               "the index of the failing file-system effect, of the raising tensor (before writing / after half of its bytes) and of the raising callback, the size threshold and the shard limit are symbolic; on every path and at EVERY effect "
               "boundary (process death) the destination holds old or complete-new bytes and no other pre-existing file changed; after a failure: old bytes, no temporary leftovers, tensors valid and readable; invalid only if replaced."),
-        note="Trusted: z3; the file-system model's contracts (atomic replace, in-place truncate/write, mmap follows the inode) - kernel durability/fsync ordering is not modelled; one fault per save; serde/onnx.save stubbed.",
+        note="Trusted: z3; the file-system model's contracts (atomic replace, in-place truncate/write, mmap follows the inode) - kernel durability/fsync ordering is not modelled; one fault per save in the quick tier, two (the second hitting the handling of the first) in the thorough tier; serde/onnx.save stubbed.",
     ),
     "C09": dict(
         engine="vthreads + hist (on zsym)", level="model_checking", design_ref="DESIGN.md section 4 / C09",
         technique="SMT (z3): inductive invariant of the real _ByteBudget on arbitrary symbolic states; bounded model checking of the real writers on virtual threads (all interleavings at synchronisation points up to a preemption bound; sizes, capacity and failing tensor symbolic)",
         text=("(A) unbounded: the real _ByteBudget.__init__/acquire/release run on z3 integers from an arbitrary state satisfying the invariant (0 <= in_flight <= capacity, oversized flag <=> one oversized token held); z3 proves every outcome "
               "re-establishes it, accounts exactly, blocks only when the documented guard is false and wakes all sleepers; the memory bound follows from the invariant (SMT). (B) bounded: _ExternalDataWriter (parallel) and the shard-driver layer run "
-              "unchanged on virtual threads: every interleaving at synchronisation points within the preemption bound, with tensor sizes and capacity as unconstrained symbolic integers (guards decided by z3) and a symbolic failing tensor, is "
+              "unchanged on virtual threads: every interleaving at synchronisation points within the preemption bound, with tensor sizes and capacity as unconstrained symbolic integers (guards decided by z3) and a symbolic failing tensor that raises an Exception or a BaseException (symbolic kind), is "
               "checked for deadlock/lost wake-up, callback once per task and never concurrent, shared tensor evaluated by one thread at a time, materialised bytes <= capacity + largest tensor, each task written once at its offset through its "
-              "own thread's handle, preallocation to the serial size, quiescence and full budget release when a failure reaches the caller. Large shard configurations are explored delay-bounded (deviations from a round-robin default), sharded by the position of the deviation."),
+              "own thread's handle, preallocation to the serial size, quiescence and full budget release when a failure reaches the caller. One configuration lets a parallel and a serial shard writer share ONE tensor object (lock-order inversions show as deadlock). Large shard configurations are explored delay-bounded (deviations from a round-robin default), sharded by the position of the deviation."),
         note="Trusted: z3; the virtual-thread stand-ins implement the documented contracts of Lock/Condition/ThreadPoolExecutor/as_completed/threading.local (listed in the evidence); context switches only at synchronisation points; more preemptions/tasks/workers than the bound are outside the claim.",
     ),
     "C13": dict(
@@ -106,14 +106,14 @@ CHECKS = {
         engine="hist (on zsym)", level="other", design_ref="DESIGN.md section 4 / C19",
         technique="symbolic execution (zsym/z3) of bounded histories of annotation requests interleaved with graph edits, renames, clones and proto round trips",
         text=("shard / set_pipeline_stage / add_/remove_device_configuration(cascade) with axis, num_shards, stage and num_devices as small symbolic integers (invalid values included) are interleaved with renames, "
-              "replace_input_with, resize_inputs/outputs, clone and serialize->deserialize at IR 11/13 and serialization at IR 10 (nothing may be emitted, in any scope) - on main-graph nodes and on a node inside an If body capturing outer values, removal by name / object / equal-looking foreign object: after every step each annotation targets a current input/output of its node and a registered configuration, the "
+              "replace_input_with, resize_inputs/outputs, clone and serialize->deserialize at IR 11/13 and serialization at IR 10 (nothing may be emitted, in any scope) - on main-graph nodes and on a node inside an If body capturing outer values, removal by name / object / equal-looking foreign object; a rank-0 operand; histories from a pre-state in which one value is annotated under both configurations on two nodes: after every step each annotation targets a current input/output of its node and a registered configuration, the "
               "library's own check reports nothing, serialized references carry current names, round trips preserve the annotations, and rejected requests change nothing."),
         note="Trusted: z3; proxies cross-checked per path. Histories of length 1 (full ranges) and 2 (near-valid shard first); group maps and shape reassignment are outside the claim.",
     ),
     "C20": dict(
         engine="hist (on zsym)", level="other", design_ref="DESIGN.md section 4 / C20",
         technique="symbolic execution (zsym/z3) of bounded histories run plainly, inside nested journals (with/without exception) and under an independent completion counter; differential oracle",
-        text=("Every operation of the C01 alphabet with symbolic operands is executed without a journal, inside 1-3 nested journals (optionally leaving by exception) and under an independent wrapper that counts completed "
+        text=("Every operation of the C01 alphabet with symbolic operands (multi-element arguments passed as one-shot iterators) is executed without a journal, inside 1-3 nested journals (optionally leaving by exception, caught outside every journal or inside an enclosing one, which must then still be installed and record the next operation) and under an independent wrapper that counts completed "
               "instrumented calls: snapshot and outcomes must be identical, the number of entries must equal the number of completed instrumented operations, after every exit each patched class attribute must be the identical "
               "object it was at that level's entry (read from the classes themselves), entries must not keep objects alive; a Journal object used twice (alone, then nested in another journal) must restore what was installed at its second entry."),
         note="Trusted: z3; proxies cross-checked per path; the set of instrumented attributes is taken from journaling._wrappers.get_original_methods() (names only). One top-level call per journal; hooks are not covered.",
@@ -155,17 +155,17 @@ CHECKS = {
     "C01": dict(
         engine="hist (on zsym)", level="other", design_ref="DESIGN.md section 4 / C01",
         technique="symbolic execution (zsym/z3) of bounded edit histories over the real IR classes; invariant I(U) on every feasible path; per-path native re-execution",
-        text=("From 9 seed states (incl. a value that used to be listed by a graph, and a cycle nested under an unsorted root; optional inputs, multi-output nodes, subgraph capture, two graphs, values with every combination of roles, values listed twice, initializers in two scopes, a cycle) "
+        text=("From 10 seed states (incl. a value that used to be listed by a graph, a cycle nested under an unsorted root, nodes holding one value at several input positions, an unnamed free value; optional inputs, multi-output nodes, subgraph capture, two graphs, values with every combination of roles, values listed twice, initializers in two scopes, a cycle) "
               "every public mutator of nodes, values, graphs and the three graph collections is driven with symbolic operand selectors and payload ints; z3 decides which paths are feasible and ALL are explored; "
               "after the history the invariant I(U) (uses<->inputs, producer<->outputs, node.graph<->graph contents, role flags<->collections, initializer keys, no producer for inputs/initializers) must hold "
-              "whether calls returned or raised. Quick: histories of length 1 plus length 2 for multi-element slice assignment/extend followed by a removal; thorough: length 2."),
+              "whether calls returned or raised. Quick: histories of length 1 plus length 2 for multi-element slice assignment/extend followed by a removal; thorough: length 2 with a symbolic second operation for a stated stride of the (seed, operation) pairs."),
         note="Trusted: z3; the proxies (every path is cross-checked by a native re-execution of its witness); the oracle uses public accessors only. Longer histories and larger states are outside the bound.",
     ),
     "C06": dict(
         engine="hist (on zsym)", level="other", design_ref="DESIGN.md section 4 / C06",
         technique="symbolic execution (zsym/z3) of bounded edit histories; post-condition on raising calls: public snapshot S(U) unchanged; per-path native re-execution",
         text=("Same driver and alphabet as C01: the final call of every history is an arbitrary public mutator with symbolic operands (incl. the position of the offending element in multi-element arguments); "
-              "on every feasible path where it raises, the snapshot of every public accessor of every reachable object must equal the snapshot before the call."),
+              "on every feasible path where it raises, the snapshot of every public accessor of every reachable object must equal the snapshot before the call (objects whose accessors fail afterwards - half-built nodes - count as changes). Thorough: one prefix step before the rejected call for a stated stride of (seed, prefix, operation) triples."),
         note="Trusted: z3; proxies cross-checked per path; snapshot = public accessors (names, connections, uses, ownership flags, collections, order, types, shapes, tensors).",
     ),
     "C10": dict(
@@ -173,7 +173,7 @@ CHECKS = {
         technique="symbolic execution of the real containment check, read entry points and load() over z3 strings with nondeterministic contract-constrained os stubs; SMT (sequence theory + EUF + LIA)",
         text=("The real three-layer containment check runs with base directory and location as symbolic strings and with abspath/realpath/stat as arbitrary functions constrained only by their "
               "contracts; z3 proves: accepted => component-wise lexical containment AND resolved containment AND single link, for all strings within the length bound. Every read entry point is proved "
-              "to open the file only after a successful check (check outcome symbolic). The check is proved to run again on EVERY read of the same tensor (link count at the second read symbolic). load() is proved to hand out the model's own directory (dirname, or '.' for a bare name) for every spelling of a file path; another string is replayed on a real tree whose components before '..' are symlinks. Counterexamples are "
+              "to open the file only after a successful check (check outcome symbolic). The check is proved to run again on EVERY read of the same tensor (link count at the second read symbolic). load() is proved to hand out the model's own directory (dirname, or '.' for a bare name) for every spelling of a file path and to every graph it visits, and (concretely, on a real file) to every external tensor of the model - initializers and attribute tensors in bodies at any depth and in functions; another string is replayed on a real tree whose components before '..' are symlinks. Counterexamples are "
               "realised as real directory trees with symlinks/hard links and read through the real library before being reported."),
         note=("Trusted: z3; the os stubs' contracts (canonical-path shape of abspath/realpath, stat/lstat relation); posixpath.join/dirname transcriptions (validated at start-up). "
               "Kernel symlink/hard-link semantics and Windows paths are not decided."),
